@@ -635,6 +635,26 @@ func (b *Builder) returnStmt(s *ast.ReturnStmt) {
 		}
 	}
 	if b.inst.Parent == nil {
+		// a returned error of unknown nil-ness is split into its two cases, so
+		// that "returns nil error" is an edge like any other test
+		if b.inst.Fn != nil {
+			res := b.inst.Fn.Type().(*types.Signature).Results()
+			for i := 0; i < res.Len() && i < len(ts); i++ {
+				if !isErrorType(res.At(i).Type()) || ts[i] == nil || ts[i].isConst() {
+					continue
+				}
+				rv := b.tempVar("rerr", res.At(i).Type())
+				b.assignVar(rv, ts[i], s.Pos())
+				ts[i] = varTerm(rv)
+				join := b.label()
+				br := b.newNode(NBranch, s.Pos())
+				br.Cond = mk("bin", "==", varTerm(rv), tNil)
+				br.Note = "retsplit"
+				b.emit(br)
+				br.Succ = []*Node{join, join}
+				b.start(join)
+			}
+		}
 		n := b.newNode(NReturn, s.Pos())
 		n.Results = ts
 		b.emit(n)
@@ -654,6 +674,11 @@ func (b *Builder) returnStmt(s *ast.ReturnStmt) {
 		b.emit(n)
 	}
 	b.jump(b.inst.exit)
+}
+
+func isErrorType(t types.Type) bool {
+	n, ok := t.(*types.Named)
+	return ok && n.Obj().Pkg() == nil && n.Obj().Name() == "error"
 }
 
 func (b *Builder) rangeStmt(s *ast.RangeStmt) {
